@@ -23,6 +23,7 @@ import (
 	"go.sia.tech/coreutils/wallet"
 	"go.uber.org/zap"
 	"go.uber.org/zap/zaptest/observer"
+	"lukechampine.com/frand"
 	"verifharness/memnet"
 )
 
@@ -686,6 +687,20 @@ func (w *World) Arrange(rel, inp string) error {
 	if err := w.splitRenter(); err != nil {
 		return err
 	}
+	// "unconfc": the renter funds with an unconfirmed output whose parent the network confirms in
+	// a block the renter has not seen -- the sweep is made now, at the common tip, and handed to
+	// the network before the chains diverge
+	if inp == "unconfc" {
+		if rel == "same" {
+			return errors.New("unconfc needs a renter that lags")
+		}
+		if err := w.makeUnconfirmed(); err != nil {
+			return err
+		}
+		if _, err := w.net.cm.AddV2PoolTransactions(w.renter.cm.Tip(), w.renter.cm.V2PoolTransactions()); err != nil {
+			return fmt.Errorf("network rejects the renter's parent: %w", err)
+		}
+	}
 	switch rel {
 	case "same":
 	case "behind":
@@ -696,8 +711,8 @@ func (w *World) Arrange(rel, inp string) error {
 			return err
 		}
 	case "fork", "forkx":
-		// the renter extends the common tip by its own blocks; the network finds a longer branch
-		fork, err := w.mineOn(w.renter, types.VoidAddress, forkLen)
+		// the renter extends the common tip by its own (empty) blocks; the network finds a longer branch
+		fork, err := w.mineEmptyOn(w.renter, forkLen)
 		if err != nil {
 			return err
 		}
@@ -722,10 +737,44 @@ func (w *World) Arrange(rel, inp string) error {
 	if err := w.waitContractor(); err != nil {
 		return err
 	}
-	if inp == "unconf" {
+	switch inp {
+	case "unconf":
 		return w.makeUnconfirmed()
+	case "unconfc":
+		if len(w.renter.cm.V2PoolTransactions()) == 0 {
+			return errors.New("the renter's parent did not stay unconfirmed for the renter")
+		}
+		if len(w.net.cm.V2PoolTransactions()) != 0 {
+			return errors.New("the network did not confirm the renter's parent")
+		}
 	}
 	return nil
+}
+
+// mineEmptyOn mines n blocks without any pool transaction on nd's chain.
+func (w *World) mineEmptyOn(nd *node, n int) ([]types.Block, error) {
+	var bs []types.Block
+	for ; n > 0; n-- {
+		cs := nd.cm.TipState()
+		b := types.Block{
+			ParentID:     cs.Index.ID,
+			Timestamp:    types.CurrentTimestamp(),
+			MinerPayouts: []types.SiacoinOutput{{Value: cs.BlockReward(), Address: types.VoidAddress}},
+			V2: &types.V2BlockData{
+				Height:       cs.Index.Height + 1,
+				Transactions: []types.V2Transaction{{ArbitraryData: frand.Bytes(12)}},
+			},
+		}
+		b.V2.Commitment = cs.Commitment(types.VoidAddress, b.Transactions, b.V2Transactions())
+		if !coreutils.FindBlockNonce(cs, &b, 5*time.Second) {
+			return nil, errors.New("mining failed")
+		}
+		if err := nd.cm.AddBlocks([]types.Block{b}); err != nil {
+			return nil, err
+		}
+		bs = append(bs, b)
+	}
+	return bs, nd.sync()
 }
 
 // splitRenter splits the renter's largest output into eight when it owns fewer than four
